@@ -5,6 +5,11 @@ from replay.C01 import native
 
 
 def replay(name, e, src_root):
+    if 'delivery' in name:
+        # obligations about the order of delivery are the reader-loop contract of C02: its native battery has the ordering scenarios
+        out = native({}, src_root, script='native_c02.py')
+        path = write_replay(name, e, note='native replay: reader loop of a real connection (battery of C02)', extra={'request': {}, 'native': out})
+        return bool(out.get('confirmed')), path
     out = native({}, src_root, script='native_c12.py')
     path = write_replay(name, e, note='native replay on a real client Network', extra={'request': {}, 'native': out})
     return bool(out.get('confirmed')), path
